@@ -44,9 +44,9 @@ KeySet(s) == SeqToSet(s)
 MapStep(m, o) ==
     CASE o.name = "add"     -> m \cup KeySet(o.keys)
       [] o.name = "readd"   -> m \cup KeySet(o.keys)    \* damage the loose copy (if any), then store the content again
-      [] o.name = "addpack" -> m \cup KeySet(o.keys)
+      [] o.name = "addpack" -> IF o.raised = "FileExistsError" THEN m ELSE m \cup KeySet(o.keys)
       [] o.name = "delete"  -> m \ KeySet(o.keys)
-      [] o.name = "import"  -> m \cup (KeySet(o.keys) \cap KeySet(o.src))
+      [] o.name = "import"  -> IF o.raised = "FileExistsError" THEN m ELSE m \cup (KeySet(o.keys) \cap KeySet(o.src))
       [] OTHER              -> m
 
 Next == /\ l < Len(Trace(tid).lines)
@@ -83,7 +83,12 @@ ViewCount == /\ V.count.packed = Len(O.rows)
 StoreIsMap == StoreKeys(O) = map
 
 (* what the call itself returned / raised *)
+(* a call that finds the lock file of a killed writer is refused and changes nothing *)
+Refused == /\ op.raised = "FileExistsError" /\ op.name \in {"addpack", "pack", "import"}
+           /\ O0.locks # <<>>
+           /\ O.loose = O0.loose /\ O.rows = O0.rows /\ O.packs = O0.packs
 ResultOK ==
+    IF op.raised = "FileExistsError" /\ op.name \in {"addpack", "pack", "import"} THEN Refused ELSE
     CASE op.name = "add"     -> op.raised = "" /\ op.res = op.keys
       [] op.name = "readd"   -> op.raised = "" /\ op.res = op.keys
       [] op.name = "addpack" -> op.raised = "" /\ op.res = op.keys
